@@ -527,10 +527,13 @@ Varable failures: {var_failed}
             # Update origins
             if 'COL' in kwds and 'COL' in outf.dimensions:
                 ncol = len(self.dimensions['COL'])
-                outf.XORIG += np.arange(ncol)[kwds['COL']].take(0) * outf.XCELL
+                # not +=: an array-valued origin is shared with the source
+                outf.XORIG = outf.XORIG + (
+                    np.arange(ncol)[kwds['COL']].take(0) * outf.XCELL)
             if 'ROW' in kwds and 'ROW' in outf.dimensions:
                 nrow = len(self.dimensions['ROW'])
-                outf.YORIG += np.arange(nrow)[kwds['ROW']].take(0) * outf.YCELL
+                outf.YORIG = outf.YORIG + (
+                    np.arange(nrow)[kwds['ROW']].take(0) * outf.YCELL)
 
         # Update TFLAG, SDATE, STIME and TSTEP
         if 'TSTEP' in kwds:
